@@ -72,7 +72,7 @@ func (w *World) EphCoins(v1, v2 bool) []Coin {
 	if v1 {
 		for _, t := range w.LastV1 {
 			for i := range t.SiacoinOutputs {
-				if c := CoinV1(t, i); !spent[c.ID] && c.Value.Cmp(types.Siacoins(2)) >= 0 {
+				if c := CoinV1(t, i); !spent[c.ID] && c.Value.Cmp(types.Siacoins(2)) >= 0 && t.SiacoinOutputs[i].Address == w.Net.Addr {
 					out = append(out, c)
 				}
 			}
@@ -81,7 +81,7 @@ func (w *World) EphCoins(v1, v2 bool) []Coin {
 	if v2 {
 		for _, t := range w.LastV2 {
 			for i := range t.SiacoinOutputs {
-				if c := CoinV2(t, i); !spent[c.ID] && c.Value.Cmp(types.Siacoins(2)) >= 0 {
+				if c := CoinV2(t, i); !spent[c.ID] && c.Value.Cmp(types.Siacoins(2)) >= 0 && t.SiacoinOutputs[i].Address == w.Net.Addr {
 					out = append(out, c)
 				}
 			}
